@@ -573,8 +573,13 @@ inline std::string struct_json(const PointCloud &pc, bool is_mesh) {
   for (int a = 0; a < pc.num_attributes(); ++a) {
     const PointAttribute *att = pc.attribute(a);
     long maxmap = -1;
-    if (!att->is_mapping_identity()) for (PointIndex p(0); p < pc.num_points(); ++p) maxmap = std::max<long>(maxmap, att->mapped_index(p).value());
     const long size_real = (long)att->size();
+    if (!att->is_mapping_identity()) {
+      // an explicit map with fewer entries than the geometry has points: the points beyond it map to nothing (reported as an index outside the values)
+      const long entries = (long)att->indices_map_size();
+      for (PointIndex p(0); p < pc.num_points() && (long)p.value() < entries; ++p) maxmap = std::max<long>(maxmap, att->mapped_index(p).value());
+      if (entries < np_real) maxmap = std::max(maxmap, size_real);
+    }
     const long size = size_real <= CAP && np_real <= CAP ? size_real : rel_np(size_real);
     const long maxmap_c = maxmap < size_real ? std::min(maxmap, size - 1) : size;
     const long bufbytes = std::min<long>(att->buffer() ? (long)att->buffer()->data_size() : 0, CAP);
